@@ -235,6 +235,88 @@ def explore(chk, rng, n_tables, reqs_per_table, tag):
                 chk.violation("error answer's Message Length differs from its size", inp, len(m.dump()), m.header.get_length())
 
 
+def summary(m):
+    get = lambda k: (getattr(m, k).data.hex() if m.has_avp(k) else None)
+    return (m.header.get_application_id(), m.header.get_command_code(), m.header.get_hop_by_hop(), m.header.get_end_to_end(),
+            m.header.is_request(), get("session_id_avp"), get("result_code_avp"), get("destination_host_avp"), get("destination_realm_avp"),
+            get("origin_host_avp"))
+
+
+def concurrent_part(chk, rng, n):
+    """one dispatcher thread per request (create_message_thread): 2..3 requests inside callback_route at once, every
+    interleaving at source-line granularity of bromelia.py; the answers sent must be, request by request, the ones sent
+    when each request is handled alone"""
+    import logging
+    logging.disable(logging.CRITICAL)
+    import sim as simlib
+    from bromelia.base import DiameterAnswer
+    from bromelia.avps import ResultCodeAVP, OriginHostAVP, OriginRealmAVP
+    for k in range(n):
+        if chk.saturated():
+            break
+        app, workers = make_app(1, os.path.join(core.WORK, "c13c_%d.yaml" % os.getpid()))
+        a = APPS[0][2]
+        c = rng.choice(CMDS)
+        outcomes = {}
+
+        def handler(request):
+            kind = outcomes[request.header.get_hop_by_hop()]
+            if kind == "answer":
+                ans = DiameterAnswer(command_code=request.header.command_code, application_id=request.header.application_id)
+                ans.append(OriginHostAVP("h"))
+                ans.append(OriginRealmAVP("r"))
+                ans.append(ResultCodeAVP((2001).to_bytes(4, "big")))
+                return ans
+            if kind == "none":
+                return None
+            raise ValueError("handler failure")
+        app.route(application_id=a.to_bytes(4, "big"), command_code=c.to_bytes(3, "big"))(handler)
+        reqs = []
+        for i in range(rng.choice([2, 2, 3])):
+            req, sid, oh, orr = make_request(rng, a, c, True)
+            req.header.hop_by_hop = 100 + i
+            req.header.end_to_end = 200 + i
+            outcomes[100 + i] = rng.choice(["answer", "none", "exc", "exc"])
+            reqs.append(req)
+        worker = workers[a.to_bytes(4, "big")]
+
+        def sent_now():
+            out = sorted(map(summary, worker.sent), key=repr)
+            del worker.sent[:]
+            return out
+        alone = []
+        for req in reqs:
+            try:
+                app.callback_route(req)
+            except BaseException as e:
+                if isinstance(e, (KeyboardInterrupt, SystemExit)):
+                    raise
+            alone += sent_now()
+        alone.sort(key=repr)
+        seed = rng.randrange(2 ** 30)
+        s = simlib.Sim(seed=seed, trace_files=("bromelia/bromelia.py",), max_steps=60000, timeout_prob=0)
+        s.keep_log = False
+        s.spin_timeout = 8.0
+        how = rng.choice(["random", "pct", "pct"])
+        chooser = simlib.pct_chooser(random.Random(seed), rng.choice([1, 2, 3]), 150) if how == "pct" else None
+        try:
+            for i, req in enumerate(reqs):
+                s.spawn((lambda req=req: app.callback_route(req)), "D%d" % i)
+            status = s.run(chooser=chooser)
+        finally:
+            s.kill()
+        together = sent_now()
+        inp = {"op": "concurrent-dispatch", "request": [a, c], "outcomes": [outcomes[100 + i] for i in range(len(reqs))], "how": how, "seed": seed,
+               "schedule": list(s.choices)[:1500]}
+        chk.case(inp, kind="route-concurrent")
+        if status != "finished":
+            chk.violation("concurrent dispatcher threads did not finish (%s)" % status, inp, "finished", status)
+        elif together != alone:
+            chk.violation("with several requests in the dispatcher at once the answers sent are not the ones each request gets alone "
+                          "(an answer built from another request, a request without answer, or two answers for one)", inp,
+                          [str(x) for x in alone], [str(x) for x in together])
+
+
 def run(chk):
     rng = random.Random(chk.seed)
     chk.lean = core.lean_build(["BromeliaVerif.Properties.C13"])
@@ -247,6 +329,7 @@ def run(chk):
                     "rate-limiting Barriers are replaced by no-ops", "PyYAML"]
     n_tables = 60 if chk.tier == "quick" else 3000
     explore(chk, rng, n_tables, 30, "sweep")
+    concurrent_part(chk, rng, 40 if chk.tier == "quick" else 2000)
 
     def search():
         explore(chk, rng, 4 * n_tables, 20, "search")
